@@ -112,6 +112,64 @@ func dnsQuery(k int) []byte {
 	return append(b, 0, 1, 0, 1)
 }
 
+// dhcp4 builds a BOOTP/DHCP message whose option area is laid out in one of
+// several legal ways: Pad options (code 0) in front of, between and behind
+// the others, an overloaded list, options of length 0.
+func dhcp4(k int) []byte {
+	b := make([]byte, 236)
+	b[0], b[1], b[2] = 1, 1, 6
+	copy(b[4:], []byte{0xde, 0xad, 0xbe, 0xef})
+	copy(b[28:], []byte{0, 0x19, 0xe3, 0xd3, 0x53, 0x52})
+	b = append(b, 0x63, 0x82, 0x53, 0x63)
+	opt := func(code byte, v ...byte) { b = append(append(b, code, byte(len(v))), v...) }
+	pad := func(n int) { b = append(b, make([]byte, n)...) }
+	switch k % 6 {
+	case 0:
+		opt(53, 1)
+		opt(55, 1, 3, 6, 15)
+		opt(12, 'h', 'o', 's', 't')
+	case 1:
+		pad(1)
+		opt(53, 3)
+		pad(1)
+		opt(12, 'a', 'b')
+		pad(2)
+		opt(50, 10, 0, 0, 9)
+	case 2:
+		pad(3)
+		opt(53, 5)
+		opt(51, 0, 0, 14, 16)
+		opt(1, 255, 255, 255, 0)
+		pad(1)
+		opt(3, 10, 0, 0, 1)
+		opt(6, 10, 0, 0, 2, 10, 0, 0, 3)
+	case 3:
+		opt(53, 2)
+		pad(2)
+		opt(54, 10, 0, 0, 1)
+		pad(1)
+		opt(61, 1, 0, 0x19, 0xe3, 0xd3, 0x53, 0x52)
+		pad(1)
+		pad(1)
+		opt(57, 5, 220)
+	case 4:
+		opt(53, 8)
+		opt(60)
+		opt(12, 'x')
+	case 5:
+		opt(53, 1)
+		pad(1)
+		opt(55, 1, 121, 3, 6, 15, 119, 252)
+		pad(1)
+		opt(12, 'M', 'a', 'c')
+		pad(1)
+		opt(82, 1, 2, 7, 7)
+	}
+	b = append(b, 255)
+	pad(k % 4) // (after End: not part of the list)
+	return b
+}
+
 // dnsResponse builds an answer with several record types: A, AAAA, CNAME with
 // a compression pointer, TXT with one to three character-strings, MX, SRV.
 func dnsResponse(k int) []byte {
@@ -219,7 +277,9 @@ func corpus(c *sim.Ctx, big bool) ([][]byte, []gopacket.Decoder) {
 		}
 		good := c.Draw(2) == 0
 		var b []byte
-		switch c.Draw(14) {
+		switch c.Draw(15) {
+		case 14:
+			b = eth(0x0800, ip4(17, udp(68, 67, dhcp4(c.Draw(6)), good), true), false)
 		case 8:
 			b = eth(0x0800, ip4(17, udp(53, 5353, dnsResponse(c.Draw(6)), good), true), false)
 		case 9, 10, 11, 12, 13:
@@ -566,7 +626,8 @@ func runC02(c *sim.Ctx, cold bool) {
 	verifhook.Hook = s.AnyLockHook
 	defer func() { verifhook.Hook = nil }()
 	nw := 2 + c.Weighted(2, 2, 1)
-	slots := make([]*shared, 6)
+	// (few slots: many readers of the same packet; many: many packets in flight)
+	slots := make([]*shared, 1+c.Draw(6))
 	for i := range slots {
 		slots[i] = &shared{}
 	}
@@ -757,6 +818,7 @@ func simC04(c *sim.Ctx) {
 			plans[w] = append(plans[w], op{c.Weighted(10, 6, 4, 4, 1), c.Draw(len(inputs)), c.Draw(5)})
 		}
 	}
+	gcRun := c.Chance(125)
 	if c.Chance(50) {
 		// a large working set: one goroutine holds many pooled packets at once,
 		// gives them all back and decodes as many again (whatever free list,
@@ -842,6 +904,9 @@ func simC04(c *sim.Ctx) {
 					if overwritten[o.a].Load() {
 						continue
 					}
+					// (one scheduling point for the whole row: it is about the history
+					// of the pool, and hundreds of hand-overs per run cost too much)
+					w.Quiet = true
 					for k := 0; k < o.b; k++ {
 						p := gopacket.NewPacket(inputs[o.a], firsts[o.a], gopacket.DecodeOptions{Pool: true})
 						ow := &owned{p: p, in: o.a, live: true, bulk: true}
@@ -859,8 +924,10 @@ func simC04(c *sim.Ctx) {
 						}
 						own[wi] = append(own[wi], ow)
 					}
+					w.Quiet = false
 					w.Rec("decode-row", int64(o.a), int64(o.b), 0, "", nil)
 				case 6: // give back every pooled packet of the row
+					w.Quiet = true
 					for _, q := range own[wi] {
 						if q.live && q.pooled && q.bulk {
 							check(q, "before its own disposal")
@@ -868,6 +935,7 @@ func simC04(c *sim.Ctx) {
 							q.p.(gopacket.PooledPacket).Dispose()
 						}
 					}
+					w.Quiet = false
 					w.Rec("dispose-row", 0, 0, 0, "", nil)
 				case 1: // dispose one of my pooled packets, exactly once
 					for _, q := range own[wi] {
@@ -894,6 +962,10 @@ func simC04(c *sim.Ctx) {
 						}
 					}
 				case 4: // a garbage collection, and time for finalizers to run
+					if !gcRun {
+						// (a collection costs as much as ten runs: one run in eight has them)
+						continue
+					}
 					runtime.GC()
 					for k := 0; k < 4; k++ {
 						runtime.Gosched()
